@@ -15,7 +15,9 @@ LEVEL = 'exploration'
 RULE = ('one run = one seeded object-graph history (link, unlink, re-link, '
         'modify, garbage, cycles, undo incl. back-pointers across the pack '
         'time and un-creation, deleteObject) on FileStorage (gc on/off, '
-        'keep_old on/off) or MappingStorage, followed by a tail of further '
+        'keep_old on/off) or MappingStorage, optionally after a pack of '
+        'the still empty storage, with alternating write/undo chains and '
+        'multi-undo blocks, followed by a tail of further '
         'transactions/undos; the history is replayed once per candidate pack '
         'time (before all, at / just before / just after / between each '
         'transaction, after all), packed there, compared with the model '
